@@ -12,17 +12,16 @@
    the C04 ghost state of the tracker of direction d (C04's invariant and theorems apply
    to it by C05_trackers_are_C04_runs).
 
-   STATUS.  Proved in full: the trackers are C04 runs; provenance of every acknowledgement
-   emitted for a dropped packet; resend discipline (same ID, RESENT, cadence, never after
-   completion, completion exactly on first ack / on exhausted budget, at most once);
-   OldestUnacked rewriting.  PARTIAL (named ..._partial): provenance / hiding / exactly-once
-   for FORWARDED packets hold for every packet except the shape [leak_shape] (a PacketAck
-   whose blocks all acknowledge injected packets, carrying appended acks that survive);
-   for that shape the statement is FALSE of the code: C05_inj_acks_hidden_refuted.
-   Not proved here: that the translated ID [a] was really sent by the endpoint (this needs
-   the assumption that a peer only acknowledges wire IDs it has received; with it, it is
-   C04_stable_and_reversible_across_time applied to the [source_ok] conclusion), and the
-   exact count of retransmissions (at most 9); see TRUSTED/notes of harness/props/c05.py. *)
+   STATUS.  The model follows the repaired code (/repo 1939bda: _rewrite_packet_ack installs
+   the filtered block list before the emptiness test).  Proved in full, for every packet:
+   the trackers are C04 runs; provenance of every acknowledgement shown for forwarded and
+   for dropped packets; inj_acks_hidden; exactly-once delivery; resend discipline (same ID,
+   RESENT, cadence, never after completion, completion exactly on first ack / on exhausted
+   budget, at most once, and the retry budget as a trace property: exactly 9
+   retransmissions then one timeout); OldestUnacked rewriting.
+   "Only IDs it sent itself" is proved under the hypothesis that the peer acknowledges a wire
+   ID that really travelled towards it (C05_shown_ack_names_a_sent_packet); above-evicted
+   hypotheses are inherited from C04.  Not modelled: real time (the clock is the event Tick). *)
 From Coq Require Import ZArith List Bool.
 From HV Require Import Inj.InjTracker Inj.InjTrackerProofs Circuit.ProxCircuit Circuit.ProxCircuitProofs.
 Import ListNotations.
@@ -45,36 +44,46 @@ Print Assumptions C05_trackers_are_C04_runs.
    not an ID the proxy injected (not in the window; and, above the forgotten injections,
    not injected EVER), [a] is [w] translated back, and [a] translates forward to [w]:
    [w] is the wire ID under which the receiving endpoint's own packet [a] travelled. *)
-Theorem C05_forwarded_acks_provenance_partial : forall m e pre msg em a,
+Theorem C05_forwarded_acks_provenance : forall m e pre msg em a,
   let s := reach m e pre in
   let G := ghost m (inv_dir (r_dir msg)) pre in
-  ~ leak_shape (tr G) msg ->
   In em (snd (fst (step s (Recv msg)))) -> In a (shown_acks em) ->
   e_dir em = r_dir msg /\ e_syn em = false /\
   exists w, In w (all_acks msg) /\ source_ok G w a.
 Proof. exact recv_sources. Qed.
-Print Assumptions C05_forwarded_acks_provenance_partial.
+Print Assumptions C05_forwarded_acks_provenance.
 
-(* the excluded shape is a real defect of the code: the viewer sends 1, the proxy
-   injects wire ID 2 towards the sim, the sim answers with PacketAck{2} carrying the
-   appended ack 1: the datagram shown to the viewer acknowledges 2, an ID the proxy
-   injected and the viewer never used *)
-Theorem C05_inj_acks_hidden_refuted :
-  exists m e pre msg em a,
-    let s := reach m e pre in
-    let G := ghost m (inv_dir (r_dir msg)) pre in
-    In em (snd (fst (step s (Recv msg)))) /\ In a (shown_acks em) /\
-    In a (jall G) /\ above_evictedb G a = true /\ ~ In a [1] (* the IDs the viewer has sent *) /\
-    (forall w, In w (all_acks msg) -> orig (tr G) w <> Some a).
-Proof.
-  exists 10%nat, 3000, [Recv (mkR OUT 1 true false [] Plain); Inj OUT true Plain],
-    (mkR IN 1 false false [1] (PacketAck [2])),
-    (mkE IN 1 false false [1] (PacketAck [2]) false), 2.
-  vm_compute. repeat split; auto.
-  - intros [H|[]]; discriminate.
-  - intros w [<-|[<-|[]]]; discriminate.
-Qed.
-Print Assumptions C05_inj_acks_hidden_refuted.
+(* acks_truthful, "only for packet IDs it sent itself": if the acknowledged wire ID [w] is one
+   that really travelled towards the acknowledging side ([seen] of the tracker's ghost: all
+   forwarded and injected wire IDs of that direction) and lies above the forgotten injections,
+   then the translated acknowledgement [a] shown to the endpoint names a packet that this
+   endpoint sent itself (a [Recv] of the history, in that direction, with ID [a]) whose wire
+   ID was [w] ([source_ok]: a translates to w) *)
+Theorem C05_shown_ack_names_a_sent_packet : forall m pre d w a,
+  let G := ghost m d pre in
+  In w (seen G) -> source_ok G w a -> above_evicted G w ->
+  exists msg, In (Recv msg) pre /\ r_dir msg = d /\ r_pid msg = a.
+Proof. exact shown_ack_was_sent. Qed.
+Print Assumptions C05_shown_ack_names_a_sent_packet.
+
+(* inj_acks_hidden: for every received packet in every reachable state (after collect_acks):
+   (1) whatever the forwarded datagram acknowledges stems from an ack of the sender for a wire
+   ID that is NOT one the proxy injected; (2) the packet is withheld exactly when it is a
+   PacketAck with no block and no appended ack surviving the filter; in particular (3) a
+   PacketAck consisting only of acks for injected packets is not forwarded.
+   (Before /repo 1939bda, (1) failed: corpus/C05/01-..., Example C05_ex_regression_1939bda.) *)
+Theorem C05_inj_acks_hidden : forall m e pre msg,
+  let s1 := fst (collect_acks (reach m e pre) msg) in
+  let rev := rev_tr s1 (r_dir msg) in
+  (forall em a, In em (snd (send_forward s1 msg)) -> In a (shown_acks em) ->
+     exists w, In w (all_acks msg) /\ was_injected rev w = false /\ orig rev w = Some a) /\
+  (snd (send_forward s1 msg) = [] <->
+     exists ids, r_kind msg = PacketAck ids /\ rewrite_acks rev ids = [] /\ rewrite_acks rev (r_acks msg) = []) /\
+  (forall ids, r_kind msg = PacketAck ids ->
+     (forall w, In w (ids ++ r_acks msg) -> was_injected rev w = true) ->
+     snd (send_forward s1 msg) = []).
+Proof. intros m e pre msg. exact (inj_acks_hidden _ msg). Qed.
+Print Assumptions C05_inj_acks_hidden.
 
 (* acks_truthful, dropped packets: what the proxy emits when it drops [msg] is (1) towards
    the sender, only if [msg] was reliable, a PacketAck for exactly [msg]'s own ID, and (2)
@@ -94,10 +103,9 @@ Print Assumptions C05_dropped_acks_provenance.
    non-injected acks, each once and in order (rewrite_acks = map of the translation over
    the filtered list), same for PacketAck blocks; nothing is sent only when the packet was a
    PacketAck with nothing left to say *)
-Theorem C05_acks_delivered_once_partial : forall m e pre msg,
+Theorem C05_acks_delivered_once : forall m e pre msg,
   let s1 := fst (collect_acks (reach m e pre) msg) in
   let rev := rev_tr s1 (r_dir msg) in
-  ~ leak_shape rev msg ->
   match snd (send_forward s1 msg) with
   | [] => exists ids, r_kind msg = PacketAck ids /\ rewrite_acks rev ids = [] /\ rewrite_acks rev (r_acks msg) = []
   | [em] => e_acks em = rewrite_acks rev (r_acks msg) /\
@@ -107,7 +115,7 @@ Theorem C05_acks_delivered_once_partial : forall m e pre msg,
   | _ => False
   end.
 Proof. intros m e pre msg. exact (send_forward_exact _ msg). Qed.
-Print Assumptions C05_acks_delivered_once_partial.
+Print Assumptions C05_acks_delivered_once.
 
 Theorem C05_rewrite_is_filter_then_translate : forall rev l,
   rewrite_acks rev l = map (orig_d rev) (filter (fun w => negb (was_injected rev w)) l).
@@ -171,6 +179,33 @@ Proof.
 Qed.
 Print Assumptions C05_completed_iff_acked.
 
+(* resend_discipline 4, the retry budget: the proxy injects a reliable packet in any reachable
+   state; it goes out once with a fresh ID; then, over ANY continuation in which no received
+   packet acknowledges it, it is retransmitted (10 - tries still left) times while it is
+   queued, and once it has left the queue it has been retransmitted exactly 9 times and its
+   completion signal has failed (TimedOut) exactly once.  [resends] counts the proxy's own
+   datagrams with that direction and ID and RESENT set, [timeouts] the TimedOut signals. *)
+Theorem C05_retry_budget : forall m e pre d k0 post,
+  let s := reach m e pre in
+  let id := snd (gen (fwd_tr s d)) in
+  (forall ev, In ev post -> acks_key ev (d, id) = false) ->
+  let '(st', tr) := run_trace (next s (Inj d true k0)) post in
+  snd (fst (step s (Inj d true k0))) = [mkE d id true false [] k0 true] /\
+  ((exists ri', In ((d, id), ri') (unacked st') /\ resends (d, id) tr = TRIES - ri_tries ri' /\
+                1 <= ri_tries ri' /\ timeouts (d, id) tr = 0) \/
+   (~ In (d, id) (keys (unacked st')) /\ resends (d, id) tr = TRIES - 1 /\ timeouts (d, id) tr = 1)).
+Proof. exact inject_budget. Qed.
+Print Assumptions C05_retry_budget.
+
+(* the same for any queued packet with t tries left *)
+Theorem C05_retry_budget_general : forall post st k ri,
+  UInv st -> In (k, ri) (unacked st) -> (forall ev, In ev post -> acks_key ev k = false) ->
+  let '(st', tr) := run_trace st post in
+  (exists ri', In (k, ri') (unacked st') /\ resends k tr = ri_tries ri - ri_tries ri' /\ timeouts k tr = 0) \/
+  (~ In k (keys (unacked st')) /\ resends k tr = ri_tries ri - 1 /\ timeouts k tr = 1).
+Proof. exact budget_trace. Qed.
+Print Assumptions C05_retry_budget_general.
+
 (* the unacked table is well formed in every reachable state: one entry per key, each a
    reliable packet of the proxy's own with its own direction and ID, 1..10 tries left, an
    ID the tracker has already handed out *)
@@ -214,9 +249,28 @@ Example C05_ex_forward :
    [mkE IN 2 false false [1; 2] Plain false], [Completed OUT 2]).
 Proof. vm_compute. reflexivity. Qed.
 
-Example C05_ex_not_leak_shape :
-  ~ leak_shape (tr (ghost 10 OUT ex_pre)) (mkR IN 1 false false [1; 2; 3] Plain).
-Proof. cbn. auto. Qed.
+(* regression (/repo 1939bda): viewer sends 1, proxy injects wire ID 2, the sim answers
+   PacketAck{2} + appended ack 1: the viewer is shown the ack 1 and an EMPTY block list *)
+Example C05_ex_regression_1939bda :
+  snd (fst (step (reach 10 3000 [Recv (mkR OUT 1 true false [] Plain); Inj OUT true Plain])
+                 (Recv (mkR IN 1 false false [1] (PacketAck [2]))))) =
+  [mkE IN 1 false false [1] (PacketAck []) false].
+Proof. vm_compute. reflexivity. Qed.
+
+(* a PacketAck only for injected packets is withheld *)
+Example C05_ex_injected_only_packetack :
+  snd (fst (step (reach 10 3000 [Recv (mkR OUT 1 true false [] Plain); Inj OUT true Plain])
+                 (Recv (mkR IN 1 false false [] (PacketAck [2]))))) = [].
+Proof. vm_compute. reflexivity. Qed.
+
+(* the budget theorem's hypothesis is satisfiable and both outcomes occur *)
+Example C05_ex_budget :
+  let post := Tick 3000 :: Recv (mkR IN 1 false false [] Plain) :: repeat (Tick 3000) 9 in
+  forallb (fun ev => negb (acks_key ev (OUT, 1))) post = true /\
+  resends (OUT, 1) (snd (run_trace (next (pc_init 10 3000) (Inj OUT true Plain)) post)) = 9 /\
+  timeouts (OUT, 1) (snd (run_trace (next (pc_init 10 3000) (Inj OUT true Plain)) post)) = 1 /\
+  resends (OUT, 1) (snd (run_trace (next (pc_init 10 3000) (Inj OUT true Plain)) (firstn 5 post))) = 4.
+Proof. vm_compute. repeat split. Qed.
 
 (* a reliable injection is resent with the same ID when due, 9 times, then times out *)
 Example C05_ex_resend :
